@@ -62,11 +62,11 @@ def block_mutants():
 def main():
     s = open(f"{V}/DESIGN.md").read()
     for name, fn in (("rules", block_rules), ("fixed", block_fixed), ("known", block_known), ("seeds", block_seeds), ("mutants", block_mutants)):
-        pat = re.compile(rf"(<!-- BEGIN:{name} -->\n).*?(\n<!-- END:{name} -->)", re.S)
+        pat = re.compile(rf"(<!-- BEGIN:{name} -->\n).*?(<!-- END:{name} -->)", re.S)
         if not pat.search(s):
             print("no block", name)
             continue
-        s = pat.sub(lambda mm: mm.group(1) + fn() + mm.group(2), s)
+        s = pat.sub(lambda mm: mm.group(1) + fn() + "\n" + mm.group(2), s)
     open(f"{V}/DESIGN.md", "w").write(s)
 
 
